@@ -28,8 +28,8 @@ ASSUMPTIONS = ["only settings the profile advertises are driven", "a setting cha
 ANCHORS = ["device.py:AirConditioner.apply", "device.py:AirConditioner._apply_properties", "command.py:SetPropertiesCommand.tobytes",
            "command.py:PropertyId.encode", "command.py:PropertyId.decode", "command.py:PropertiesResponse._parse",
            "device.py:AirConditioner._update_state"]
-MIN_NONTRIVIAL = {"quick": 2500, "thorough": 60000}
-MIN_HIST = {"quick": {"apply-frames-checked": 3000, "readback-checked": 2000}, "thorough": {"apply-frames-checked": 100000, "readback-checked": 80000}}
+MIN_NONTRIVIAL = {"quick": 2500, "thorough": 50000}
+MIN_HIST = {"quick": {"apply-frames-checked": 3000, "readback-checked": 2000}, "thorough": {"apply-frames-checked": 80000, "readback-checked": 50000}}
 WORKERS = {"quick": 1, "thorough": 16}
 EXHAUSTIVE = {"quick": ["all histories of depth <= 2 over the per-profile alphabet, 12 profiles"],
               "thorough": ["all histories of depth <= 3 over the per-profile alphabet, 12 profiles"]}
